@@ -880,8 +880,8 @@ impl crate::traits::SwiftMessageBody for MT103 {
         // Parse optional repeating Field13C
         parser = parser.with_duplicates(true);
         let mut field_13c = Vec::new();
-        while let Ok(field) = parser.parse_field::<Field13C>("13C") {
-            field_13c.push(field);
+        while parser.detect_field("13C") {
+            field_13c.push(parser.parse_field::<Field13C>("13C")?);
         }
         parser = parser.with_duplicates(false);
 
@@ -891,8 +891,8 @@ impl crate::traits::SwiftMessageBody for MT103 {
         // Parse optional repeating Field23E
         parser = parser.with_duplicates(true);
         let mut field_23e = Vec::new();
-        while let Ok(field) = parser.parse_field::<Field23E>("23E") {
-            field_23e.push(field);
+        while parser.detect_field("23E") {
+            field_23e.push(parser.parse_field::<Field23E>("23E")?);
         }
         parser = parser.with_duplicates(false);
 
@@ -932,8 +932,8 @@ impl crate::traits::SwiftMessageBody for MT103 {
         // Parse optional repeating Field71F
         parser = parser.with_duplicates(true);
         let mut field_71f = Vec::new();
-        while let Ok(field) = parser.parse_field::<Field71F>("71F") {
-            field_71f.push(field);
+        while parser.detect_field("71F") {
+            field_71f.push(parser.parse_field::<Field71F>("71F")?);
         }
         parser = parser.with_duplicates(false);
 
